@@ -346,10 +346,18 @@ def one_relational(rnd, acc, api):
             case.update({'right': refval.enc(right), 'key': k, 'rkey': rk, 'flag': lflag})
             if ambiguous_keys([row.get(k) for row in rows] + [row.get(rk or k) for row in right]):
                 return
+            kx, rkx, jvars = k, rk, None
+            if rnd.random() < 0.3:
+                # the key expressions of BOTH sides may refer to the variables object of the call
+                jvars = {'useKey': 1, 'other': 'unused'}
+                kx, rkx = f'if(useKey, {k}, null)', (f'if(useKey, {rk}, null)' if (rk is not None or rnd.random() < 0.5) and (rk or k) else None)
+                if rkx is not None and rk is None:
+                    rkx = f'if(useKey, {k}, null)'
+                acc.count('join_expressions_with_variables')
             if via_python:
-                r = bare_script.join_data(copy.deepcopy(rows), copy.deepcopy(right), k, rk, lflag, None, {'globals': {}})
+                r = bare_script.join_data(copy.deepcopy(rows), copy.deepcopy(right), kx, rkx, lflag, jvars, {'globals': {}})
             else:
-                r, _ = run_script(api, f'll = {T}\nrr = {tbl_lit(right)}\nreturn dataJoin(ll, rr, {lit(k)}, {lit(rk)}, {lit(lflag)})')
+                r, _ = run_script(api, f'll = {T}\nrr = {tbl_lit(right)}\nreturn dataJoin(ll, rr, {lit(kx)}, {lit(rkx)}, {lit(lflag)}' + (f", objectNew('useKey', 1, 'other', 'unused'))" if jvars else ')'))
             acc.case((kind, T, tbl_lit(right), k, rk, lflag), len(rows) >= 2)
             if not isinstance(r, list):
                 fail('failed', f'dataJoin over {rows!r:.200} / {right!r:.200} = {r!r}')
